@@ -85,6 +85,7 @@ var Mutants = []Mutant{
 	{ID: "for-scope-per-loop", Props: []string{"C10"}, Rule: "R-SCOPEPAIR/evaluator", File: "pkg/evaluator/evaluator.go", Find: "\t\tval, err := e.evalLoopBlock(f.Block)", Replace: "\t\tval, err := e.eval(f.Block)", Expect: "evalFor#eval-block", Describe: "loop body shares one scope across iterations"},
 	// C11
 	{ID: "string-index-bytes", Props: []string{"C11", "C13"}, Rule: "R-RUNES/pkg/evaluator", File: "pkg/evaluator/value.go", Find: "\trunes := s.runes()\n\ti, err := normalizeIndex(idx, len(runes), indexExpression)\n\tif err != nil {\n\t\treturn nil, err\n\t}\n\treturn &stringVal{V: string(runes[i])}, nil", Replace: "\ti, err := normalizeIndex(idx, len(s.V), indexExpression)\n\tif err != nil {\n\t\treturn nil, err\n\t}\n\treturn &stringVal{V: string(s.V[i])}, nil", Expect: "(*stringVal).Index#bytestring", Describe: "strings indexed by byte"},
+	{ID: "index-byte-offset", Props: []string{"C11", "C13"}, Rule: "R-RUNES/pkg/evaluator", File: "pkg/evaluator/builtin.go", Find: "\treturn &numVal{V: float64(utf8.RuneCountInString(s[:idx]))}, nil", Replace: "\treturn &numVal{V: float64(idx)}, nil", Expect: "indexFunc#bytestring", Describe: "index returns a byte offset"},
 	// C12
 	{ID: "del-direct", Props: []string{"C12"}, Rule: "R-MAPENC", File: "pkg/evaluator/builtin.go", Find: "\tm.Delete(keyStr.V)\n", Replace: "\tdelete(m.Pairs, keyStr.V)\n", Expect: "delFunc", Describe: "del removes the key from the Go map only"},
 	{ID: "setkey-always-append", Props: []string{"C12"}, Rule: "R-MAPENC", File: "pkg/evaluator/value.go", Find: "\tif _, ok := m.Pairs[key]; !ok {\n\t\t*m.Order = append(*m.Order, key)\n\t}\n\tm.Pairs[key] = val", Replace: "\t*m.Order = append(*m.Order, key)\n\tm.Pairs[key] = val", Expect: "SetKey#body:order", Describe: "overwriting a key duplicates it in the order"},
@@ -109,8 +110,9 @@ var Mutants = []Mutant{
 	{ID: "write-in-place", Props: []string{"C18"}, Rule: "R-ATOMICWRITE", File: "main.go", Find: "\tif c.Write {\n\t\treturn writeAtomically([]byte(formatted), filename)\n\t}", Replace: "\tif c.Write {\n\t\treturn os.WriteFile(filename, []byte(formatted), 0o644)\n\t}", Expect: "os.WriteFile", Describe: "the target is truncated and rewritten in place"},
 	{ID: "temp-elsewhere", Props: []string{"C18"}, Rule: "R-ATOMICWRITE", File: "main.go", Find: "os.CreateTemp(filepath.Dir(filename), \"evy\")", Replace: "os.CreateTemp(os.TempDir(), \"evy\")", Expect: "W2:same-directory", Describe: "temp file in the system temp directory"},
 	{ID: "close-error-ignored", Props: []string{"C18"}, Rule: "R-ATOMICWRITE", File: "main.go", Find: "\tif err := tempFile.Close(); err != nil {\n\t\treturn fmt.Errorf(\"%s: %w\", filename, err)\n\t}", Replace: "\ttempFile.Close() //nolint:errcheck", Expect: "W3:Close-ok-before-Rename", Describe: "Close error ignored before rename"},
-	{ID: "no-chmod", Props: []string{"C18"}, Rule: "R-ATOMICWRITE", File: "main.go", Find: "\tif info, err := os.Stat(filename); err == nil {\n\t\tif err := tempFile.Chmod(info.Mode().Perm()); err != nil {\n\t\t\treturn fmt.Errorf(\"%s: %w\", filename, err)\n\t\t}\n\t}\n", Replace: "", Expect: "W4:permission-bits", Describe: "file mode becomes 0600"},
+	{ID: "no-chmod", Props: []string{"C18"}, Rule: "R-ATOMICWRITE", File: "main.go", Find: "\tinfo, err := os.Stat(filename)\n\tif err != nil {\n\t\treturn fmt.Errorf(\"%s: %w\", filename, err)\n\t}\n\tif err := tempFile.Chmod(info.Mode().Perm()); err != nil {\n\t\treturn fmt.Errorf(\"%s: %w\", filename, err)\n\t}\n", Replace: "", Expect: "W4:permission-bits", Describe: "file mode becomes 0600"},
 	{ID: "write-despite-format-error", Props: []string{"C18"}, Rule: "R-ATOMICWRITE", File: "main.go", Find: "\tformatted, err := format(b, c.Check)\n\tif err != nil {\n\t\treturn fmt.Errorf(\"%s: %w\", filename, err)\n\t}\n\tif c.Write {", Replace: "\tformatted, err := format(b, c.Check)\n\tif err != nil && !c.Write {\n\t\treturn fmt.Errorf(\"%s: %w\", filename, err)\n\t}\n\tif c.Write {", Expect: "fmtEvyFile#W5:write", Describe: "an unparsable file is overwritten"},
+	{ID: "stat-error-ignored", Props: []string{"C18"}, Rule: "R-ATOMICWRITE", File: "main.go", Find: "\tinfo, err := os.Stat(filename)\n\tif err != nil {\n\t\treturn fmt.Errorf(\"%s: %w\", filename, err)\n\t}\n\tif err := tempFile.Chmod(info.Mode().Perm()); err != nil {\n\t\treturn fmt.Errorf(\"%s: %w\", filename, err)\n\t}\n", Replace: "\tif info, err := os.Stat(filename); err == nil {\n\t\tif err := tempFile.Chmod(info.Mode().Perm()); err != nil {\n\t\t\treturn fmt.Errorf(\"%s: %w\", filename, err)\n\t\t}\n\t}\n", Expect: "W4:permission-bits", Describe: "a failing Stat lets the rename go ahead with mode 0600"},
 	// C19
 	{ID: "linecap-no-push", Props: []string{"C19"}, Rule: "R-SVG", File: "pkg/cli/svg/runtime.go", Find: "func (rt *GraphicsPlatform) Linecap(str string) {\n\trt.Push()\n", Replace: "func (rt *GraphicsPlatform) Linecap(str string) {\n", Expect: "svg.Linecap#push-first", Describe: "linecap changes the pen of shapes already drawn"},
 	{ID: "line-y-transformx", Props: []string{"C19"}, Rule: "R-SVG", File: "pkg/cli/svg/runtime.go", Find: "func (rt *GraphicsPlatform) Line(x, y float64) {\n\tx = rt.transformX(x)\n\ty = rt.transformY(y)", Replace: "func (rt *GraphicsPlatform) Line(x, y float64) {\n\tx = rt.transformX(x)\n\ty = rt.transformX(y)", Expect: "svg.Line#coord:y", Describe: "line end points are not flipped"},
